@@ -1,6 +1,7 @@
 """C16 — prediction-correction transforms are exactly invertible for any prediction."""
 import re
 import vcheck as V
+import tieleaf
 LEVEL = "proof"
 PROP_FILE = "Properties_C16.v"
 RULE = ("cases = calls of the real header templates (PredictionSchemeWrap{Encoding,Decoding}Transform<int32_t>, the canonicalized and the "
@@ -12,6 +13,12 @@ RULE = ("cases = calls of the real header templates (PredictionSchemeWrap{Encodi
         "thorough; q=6 thorough only), boundary-biased random pairs for every q up to 30, hostile corrections, each leaf function on "
         "arbitrary int32 arguments inside its no-UB domain. A case is distinct by its text; every case evaluates one function on one "
         "argument tuple, so all count as non-trivial")
+
+# leaf functions regenerated from the C++ by tools/leaf_translate.py and proved equal to the hand model (coq/Tie/Tie_Leaf.v)
+TIE_LEAF = ["ModMax", "ModMax_no_ub", "MakePositive", "IsInDiamond", "IsInDiamond_no_ub", "InvertDiamond",
+            "CanonicalizeOctahedralCoords", "CanonicalizeOctahedralCoords_no_ub", "SetQuantizationBits", "SetQuantizationBits_no_ub",
+            "IsInBottomLeft", "GetRotationCount", "RotatePoint", "RotatePoint_no_ub", "AddAsUnsigned",
+            "ClampPredictedValue", "InitCorrectionBounds", "InitCorrectionBounds_no_ub"]
 
 def corr_runs(ctx):
     return [dict(tag="h_C16", harness="C16", driver="C16", args=[ctx.tier, ctx.seed],
@@ -37,6 +44,7 @@ def extra(ctx, lib):
             ctx.cov["roundtrips_checked_on_impl"] = {"wrap": int(m.group(1)), "octahedron_canonical_orig": int(m.group(3)),
                                                      "octahedron_noncanonical_orig": int(m.group(4)),
                                                      "hostile_decodes": int(m.group(2)) + int(m.group(5))}
+    tieleaf.record(ctx, TIE_LEAF)
 
 def run(ctx):
     V.standard_run(ctx, __import__(__name__))
